@@ -78,7 +78,20 @@ def c02Write (s : SyncCase) (r : Rec) : Option String :=
           else some s!"accepted {r.verb} of {r.resource} {r.name}, which the parent does not control"
   | _ => none
 
-def oracleC02 (s : SyncCase) : Option String := firstSome s.calls (c02Write s)
+/-- the only write to an object the parent does not control yet is the adoption of the orphan that was *observed*:
+    an accepted ownership edit that adds the parent's reference lands on the object with the observed UID -/
+def c02AdoptionTarget (s : SyncCase) (r : Rec) : Option String :=
+  if !r.ok || !s.isDependent r || r.verb != "update" then none else
+  match r.pre, cachedDependent s r with
+  | some p, some o =>
+      let uid := s.parentUID
+      if !(getOwnerRefs p).any (·.uid == uid) && (getOwnerRefs r.body).any (·.uid == uid) then
+        check (getUID o == getUID p) s!"the parent's reference was written into {r.name} (UID {getUID p}), which is not the orphan that was observed (UID {getUID o})"
+      else none
+  | _, _ => none
+
+def oracleC02 (s : SyncCase) : Option String :=
+  orElse (firstSome s.calls (c02Write s)) fun _ => firstSome s.calls (c02AdoptionTarget s)
 
 -- ---------------------------------------------------------------------------------------------
 -- C04  adoption, release and creation obey the ControllerRef rules
